@@ -31,6 +31,7 @@ type CaseC13 struct {
 	EOFWith   bool                     `json:"eof_with"`
 	Bufio     bool                     `json:"bufio"`
 	Stop      int                      `json:"stop"`                 // handlers: return false at the Stop-th document (0: never)
+	DecOpts   uint16                   `json:"dec_opts,omitempty"`   // decoder options in force for the direct and the stream decoding alike (see applyUnrelatedOptions)
 	UseNumber bool                     `json:"use_number,omitempty"` // JSON kinds: mxj.JsonUseNumber is on for the direct and the stream decoding alike
 }
 
@@ -179,6 +180,7 @@ func genC13(t *rapid.T) CaseC13 {
 	if c.Kind == "json" {
 		c.UseNumber = rapid.IntRange(0, 3).Draw(t, "usenumber") == 0
 	}
+	c.DecOpts = genUnrelated(t)
 	c.EOFWith = rapid.Bool().Draw(t, "eofWith")
 	c.Bufio = rapid.Bool().Draw(t, "bufio")
 	if strings.HasPrefix(c.API, "handler") || c.API == "wrapper" {
@@ -221,6 +223,8 @@ func checkC13(c CaseC13, info *Info) *Failure {
 		return nil
 	}
 	defer resetOptions()
+	applyUnrelatedOptions(c.DecOpts)
+	info.ClassIf(c.DecOpts != 0, "non-default decoder options in force")
 	// build the stream and the expected Maps (direct decoding of each document's own bytes)
 	var stream bytes.Buffer
 	var docs [][]byte
